@@ -242,7 +242,16 @@ pub fn check(case: &C06Case, st: &mut Stats) -> Verdict {
                         if let Out::Panic(p) = &r {
                             return Err(Failure::new(panic_sig("create_presentation", p), format!("create_presentation panicked: {}", p)));
                         }
-                        sut::present_with(&mut holder, &case.selection, case.kb.as_ref())
+                        let after_failure = sut::present_with(&mut holder, &case.selection, case.kb.as_ref());
+                        // the presentation made right after the failed call must be exact, too
+                        if let Out::Ok(pf) = &after_failure {
+                            match check_presentation(&issued, spec.fmt, &sel.paths, pf, case.kb.as_ref()) {
+                                Err(f) if f.signature == "harness:void" => {}
+                                Err(f) => return Err(Failure::new(format!("after-failed-call:{}", f.signature), format!("[create_presentation right after a call on the same holder that failed (selection of a claim that does not exist)] {}", f.message))),
+                                Ok(_) => {}
+                            }
+                        }
+                        after_failure
                     } else {
                         sut::present_with(&mut holder, &case.selection, case.kb.as_ref())
                     };
